@@ -245,6 +245,8 @@ class Target:
                 parts = dotted_name.split('.')
                 if len(parts) == 1:
                     # a bare name (module global or builtin such as `open`): shadow it in the module's globals
+                    if type(globs.get(parts[0])).__name__ != 'Extern':
+                        ext.__dict__['original'] = globs.get(parts[0])    # e.g. the real class behind a patched constructor
                     es.enter_context(mock.patch.dict(globs, {parts[0]: ext}))
                     continue
                 if parts[0] not in globs:
